@@ -92,15 +92,33 @@ class Codec(object):
 
 # --------------------------------------------------------------------------
 
-class _HostInt(int):
+class _Member(object):
+    """Like the members of an IntEnum (or a unit-carrying float, an interned rich-text str), instances exist only for the values the
+    host made them for: `type(x)(0)` is an error, as `Colour(0)` is when no colour is 0.  Code that rebuilds a value through its
+    own type - instead of computing with it - shows up under the host-type differential."""
+    __slots__ = ()
+
+    def __new__(cls, value, _by_host=False):
+        if not _by_host:
+            raise ValueError('%r is not a valid %s' % (value, cls.__name__))
+        return super(_Member, cls).__new__(cls, value)
+
+    def __copy__(self):
+        return self
+
+    def __deepcopy__(self, memo):
+        return self
+
+
+class _HostInt(_Member, int):
     pass
 
 
-class _HostFloat(float):
+class _HostFloat(_Member, float):
     pass
 
 
-class _HostStr(str):
+class _HostStr(_Member, str):
     pass
 
 
@@ -225,13 +243,13 @@ class Env(object):
             t = type(v)
             if t is int:
                 changed[0] = True
-                return _HostInt(v)
+                return _HostInt(v, True)
             if t is float:
                 changed[0] = True
-                return _HostFloat(v)
+                return _HostFloat(v, True)
             if t is str:
                 changed[0] = True
-                return _HostStr(v)
+                return _HostStr(v, True)
             if t is datetime.datetime:
                 changed[0] = True
                 return _HostDateTime(v.year, v.month, v.day, v.hour, v.minute, v.second, v.microsecond, v.tzinfo)
@@ -329,6 +347,17 @@ class Env(object):
 
 
 # --------------------------------------------------------------------------
+
+def digits_of(n):
+    """str(n) for a whole number of any size (the interpreter refuses more than 4300 digits at once)."""
+    sign, n = ('-' if n < 0 else ''), abs(n)
+    parts = []
+    while n >= 10 ** 4000:
+        n, rest = divmod(n, 10 ** 4000)
+        parts.append('%04000d' % rest)
+    parts.append(str(n))
+    return sign + ''.join(reversed(parts))
+
 
 def lit(v):
     """Render a JSON-level scalar as a formula literal (numbers, text, logicals)."""
